@@ -16,6 +16,7 @@ def prev (st : St K) (k : Nat) : List (Nat × Vec K) :=
 structure MagLaws (K : Type) [Field K] [Mag K Rat] : Prop where
   nonneg : ∀ x : K, 0 ≤ (Mag.abs1 x : Rat)
   zero : (Mag.abs1 (0 : K) : Rat) = 0
+  definite : ∀ x : K, (Mag.abs1 x : Rat) = 0 → x = 0
 
 /-- what holds after `j` columns have been factored without meeting a zero pivot -/
 structure Inv (P : Params K Rat) (st : St K) (j : Nat) : Prop where
